@@ -7,6 +7,7 @@
 #include "oracle/ellf.hpp"
 #include <GeographicLib/AuxLatitude.hpp>
 #include <GeographicLib/AuxAngle.hpp>
+#include <GeographicLib/DAuxLatitude.hpp>
 #include <GeographicLib/Ellipsoid.hpp>
 #include <GeographicLib/EllipticFunction.hpp>
 #include <GeographicLib/Geodesic.hpp>
@@ -390,6 +391,117 @@ static void check_aux_scaled(Ctx& ctx, EnvE& v, int from) {
         cworst(ctx, "aux.scaled_series_angle_err_over_tol", e / tol, [&] { return key; });
         if (!(e <= tol)) cfail(ctx, key, "series result tan = " + fx(rt) + " differs from the definition " + qs(ref) + " by " + fmt(e / EPS) + " eps in the angle", FF("scaled-series-value"));
       }
+    }
+  }
+}
+
+
+// ------------------------------------------------------------------ the optional derivative output d tan(aux)/d tan(phi)
+// Closed forms in __float128 (t = tan phi, T = tan aux from the oracle, w = 1 - e^2 sin^2 phi = (1-e^2) + e^2/(1+t^2)):
+//   beta: 1-f;  theta: (1-f)^2;  in general  d tan(eta)/d tan(phi) = (d eta/d phi) (1+T^2)/(1+t^2)  with
+//   d mu/d phi = (pi/2) rho/M,  d chi/d phi = (1-e^2) cos(chi)/(w cos(phi)),  d xi/d phi = 2 cos(phi)/(w^2 A(1) cos(xi)).
+// At the poles the derivative is the limit of tan(aux)/tan(phi), evaluated from the same formulas at t = 1e1000 (and cross-checked
+// against that ratio).  Also returns the angle derivative d eta/d phi (for the divided differences with coinciding arguments).
+static Q w_of_t(const merid::Ell& E, Q t) { Q c2 = 1 / (1 + t * t); return E.e2 > 0 ? E.e2m + E.e2 * c2 : 1 - E.e2 * (t * t * c2); }
+static Q deriv_tan(const merid::Ell& E, int aux, Q t, Q* dangle = nullptr) {
+  t = fabsq(t); if (isinfq(t)) t = 1e1000Q;
+  Q T = t == 0 ? (Q)0 : merid::to_aux(E, aux, t), w = w_of_t(E, t), r2 = (1 + T * T) / (1 + t * t), da;
+  switch (aux) {
+  case merid::PHI: da = 1; break;
+  case merid::BETA: da = E.fm1 / r2; break;
+  case merid::THETA: da = E.e2m / r2; break;
+  case merid::MU: da = q128::pi() / 2 * (E.a * E.e2m / (w * sqrtq(w))) / E.M; break;
+  case merid::CHI: da = E.e2m / (w * sqrtq(r2)); break;                       // (1-e^2) cos(chi) / (w cos(phi))
+  default: da = 2 * sqrtq(r2) / (w * w * E.A1); break;                        // 2 cos(phi) / (w^2 A(1) cos(xi)),  cos(phi)/cos(xi) = sqrt((1+T^2)/(1+t^2))
+  }
+  if (dangle) *dangle = da;
+  return da * r2;
+}
+// input classes of the derivative subcheck (own field name, so that the value-related known findings do not apply to it)
+static const char* dtan_class(double t) {
+  double a = std::fabs(t);
+  return std::isinf(a) ? "pole" : (a >= 1e308 ? "top" : (a >= 1.3e154 ? "sq-overflow" : (a == DMIN ? "denorm_min" : "normal")));
+}
+static const double DERIV_TANS[] = {0, 1e-310, 1e-10, 0.1, 1, 10, 1e10, 1e155, 1.7976931348623157e308, INFINITY};
+static void check_aux_derivative(Ctx& ctx, EnvE& v, bool thorough) {
+  std::vector<double> ts(std::begin(DERIV_TANS), std::end(DERIV_TANS));
+  if (thorough) for (double x : {4.9406564584124654e-324, 2.2250738585072014e-308, 1e-300, 1e-160, 1e-3, 0.57735026918962573, 57295.77950726455, 1e12, 1e20, 1e100, 1e160, 1e300}) ts.push_back(x);
+  mc::Fields F0{{"ellipsoid", v.d->name}, {"ell_regime", v.reg}};
+  for (int aux = 0; aux < 6; ++aux) for (double t0 : ts) for (int sg = 1; sg >= -1; sg -= 2) {
+    Ctx::Case cs(ctx);
+    double t = sg * t0;
+    std::string key = std::string("auxdiff ") + v.d->name + " " + AUXN[aux] + " tan " + fx(t);
+    bool valnan = false;
+    auto FF = [&](const std::string& kind) { mc::Fields F = F0; F.push_back({"aux", AUXN[aux]}); F.push_back({"dtan_class", dtan_class(t)});
+      if (valnan) F.push_back({"tan_class", tan_class_for(t, 0, aux, false)});        // the latitude itself is NaN: the value-related finding applies
+      F.push_back({"kind", valnan ? kind + "-of-nan-value" : kind}); return F; };
+    AuxAngle z = mk(t);
+    double diff = -777, d2 = -777;
+    AuxAngle r = v.aux.ToAuxiliary(aux, z, &diff), r2;
+    // the individual members return the same value and the same derivative
+    switch (aux) {
+    case 0: r2 = z; d2 = 1; break;
+    case 1: r2 = v.aux.Parametric(z, &d2); break;
+    case 2: r2 = v.aux.Geocentric(z, &d2); break;
+    case 3: r2 = v.aux.Rectifying(z, &d2); break;
+    case 4: r2 = v.aux.Conformal(z, &d2); break;
+    default: r2 = v.aux.Authalic(z, &d2); break;
+    }
+    if (!(mc::same_bits(diff, d2) || (std::isnan(diff) && std::isnan(d2))) || !(mc::same_bits(r.tan(), r2.tan()) || (std::isnan(r.tan()) && std::isnan(r2.tan()))))
+      cfail(ctx, key + " member", "ToAuxiliary and the individual member function disagree: diff " + fx(diff) + " vs " + fx(d2), FF("derivative-member"));
+    valnan = std::isnan(r.tan());
+    if (std::isfinite(t) && std::isinf(r.tan())) {     // tan(aux) itself left the double range (chi on very prolate ellipsoids): as in auxlat-misc, not compared
+      ctx.count("derivative_at_overflowed_tangent_not_compared"); ctx.list("doc_silent", "derivative output where tan(aux) overflows for a finite tan(phi)"); continue; }
+    Q ref = deriv_tan(v.E, aux, (Q)t);
+    // conditioning in the shape parameter (prolate chi), as for the value
+    double tk = std::isfinite(t) ? (t == 0 ? 1e-300 : t) : 1e300;
+    double cond = 1 + v.kappa(0, aux, tk) / 8;
+    double e = std::isnan(diff) ? INF : (double)(fabsq((Q)diff - ref) / ref), tol = C15tol("aux.derivative", v.reg) * EPS * cond;
+    if (ref > (Q)1.7976931348623157e308) e = (std::isinf(diff) && diff > 0) ? 0 : INF;          // overflows with the tangent itself
+    const bool dn = !strcmp(dtan_class(t), "normal") || !strcmp(dtan_class(t), "sq-overflow");       // (the known-defect input classes are not tallied)
+    if (dn) cworst(ctx, std::string("aux.derivative_relerr_over_tol.") + v.reg + "." + AUXN[aux], e / tol, [&] { return key; });
+    if (!(e <= tol)) cfail(ctx, key, "d tan(" + std::string(AUXN[aux]) + ")/d tan(phi) = " + fx(diff) + " but the definition gives " + qs(ref) + " (" + fmt(e / EPS) + " eps relative)", FF("derivative-value"));
+    if (ctx.want_sample()) ctx.sample(key + " -> " + fmt(diff));
+  }
+  // harness self-check of the polar limit: formula at 1e1000 = ratio tan(aux)/tan(phi) there, and ~ the value at 1e12
+  for (int aux = 1; aux < 6; ++aux) {
+    Q big = 1e1000Q, lim = deriv_tan(v.E, aux, big), ratio = merid::to_aux(v.E, aux, big) / big, at12 = deriv_tan(v.E, aux, (Q)1e12);
+    if (!(fabsq(lim - ratio) <= 1e-25Q * lim) || !(fabsq(lim - at12) <= 1e-20Q * lim * (1 + fabsq(v.E.e2) * 10)))
+      cfail(ctx, std::string("auxdiff ") + v.d->name + " " + AUXN[aux] + " polar-limit", "reference inconsistent: limit " + qs(lim) + ", ratio " + qs(ratio) + ", at 1e12 " + qs(at12), {{"kind", "harness"}});
+  }
+}
+// DAuxLatitude: the divided differences with COINCIDING arguments are the angle derivatives d(beta, mu, psi)/d phi; DConvert (series,
+// |f| <= 1/150) is d eta/d zeta = (d eta/d phi)/(d zeta/d phi)
+static void check_daux_coincident(Ctx& ctx, EnvE& v, bool thorough) {
+  DAuxLatitude D(v.a, v.f);
+  std::vector<double> ts{0, 1e-310, 1e-10, 0.1, 1, 10, 1e10, 1e155, 1.7976931348623157e308, INFINITY};
+  if (thorough) for (double x : {1e-300, 1e-3, 0.57735026918962573, 57295.77950726455, 1e20, 1e100, 1e300}) ts.push_back(x);
+  mc::Fields F0{{"ellipsoid", v.d->name}, {"ell_regime", v.reg}};
+  for (double t0 : ts) for (int sg = 1; sg >= -1; sg -= 2) {
+    Ctx::Case cs(ctx);
+    double t = sg * t0; AuxAngle z = mk(t);
+    std::string key = std::string("daux ") + v.d->name + " tan " + fx(t);
+    Q dbeta, dmu, dchi; deriv_tan(v.E, merid::BETA, (Q)t, &dbeta); deriv_tan(v.E, merid::MU, (Q)t, &dmu); deriv_tan(v.E, merid::CHI, (Q)t, &dchi);
+    Q tq = isinfq((Q)t) ? 1e1000Q : fabsq((Q)t), Tc = tq == 0 ? (Q)0 : merid::to_aux(v.E, merid::CHI, tq);
+    Q dpsi = dchi * sqrtq(1 + Tc * Tc);                    // d psi/d chi = sec(chi)
+    struct { const char* fn; double got; Q ref; } cs3[3] = {{"DParametric", D.DParametric(z, z), dbeta}, {"DRectifying", D.DRectifying(z, z), dmu}, {"DIsometric", D.DIsometric(z, z), dpsi}};
+    for (auto& c : cs3) {
+      double e;
+      if (c.ref > (Q)1.7976931348623157e308) e = (std::isinf(c.got) && c.got > 0) ? 0 : INF;        // d psi/d phi -> infinity at the pole
+      else e = std::isnan(c.got) ? INF : (double)(fabsq((Q)c.got - c.ref) / c.ref);
+      double tol = C15tol("daux.coincident", v.reg) * EPS;
+      if (!strcmp(dtan_class(t), "normal")) cworst(ctx, std::string("daux.coincident_relerr_over_tol.") + v.reg + "." + c.fn + (strcmp(v.reg, "extreme") ? "" : std::string(".") + v.d->name), e / tol, [&] { return key; });
+      if (!(e <= tol)) { mc::Fields F = F0; F.push_back({"fn", c.fn}); F.push_back({"dtan_class", dtan_class(t)}); F.push_back({"shape", v.f > 0 ? "oblate" : (v.f < 0 ? "prolate" : "sphere")}); F.push_back({"kind", "daux-coincident"});
+        cfail(ctx, key + " " + c.fn, std::string(c.fn) + "(phi, phi) = " + fx(c.got) + " but the derivative is " + qs(c.ref) + " (" + fmt(e / EPS) + " eps relative)", F); }
+    }
+    if (v.small && std::isfinite(t)) for (int in = 0; in < 6; ++in) for (int out = 0; out < 6; ++out) {
+      if (in == out) continue;
+      Q tphi = t == 0 ? (Q)0 : fabsq(v.tphi(in, std::fabs(t))), di, dout; deriv_tan(v.E, in, tphi, &di); deriv_tan(v.E, out, tphi, &dout);
+      Q ref = dout / di; double got = D.DConvert(in, out, z, z);
+      double e = std::isnan(got) ? INF : (double)(fabsq((Q)got - ref) / ref), tol = C15tol("daux.dconvert", v.reg) * EPS;
+      cworst(ctx, "daux.dconvert_coincident_relerr_over_tol", e / tol, [&] { return key + " " + AUXN[in] + "->" + AUXN[out]; });
+      if (!(e <= tol)) { mc::Fields F = F0; F.push_back({"fn", "DConvert"}); F.push_back({"from", AUXN[in]}); F.push_back({"to", AUXN[out]}); F.push_back({"dtan_class", dtan_class(t)}); F.push_back({"kind", "dconvert-coincident"});
+        cfail(ctx, key + " DConvert " + AUXN[in] + "->" + AUXN[out], "DConvert(zeta, zeta) = " + fx(got) + " but d eta/d zeta = " + qs(ref) + " (" + fmt(e / EPS) + " eps relative)", F); }
     }
   }
 }
@@ -989,6 +1101,14 @@ int main(int argc, char** argv) {
     for (int i : eidx) for (int from = 0; from < 6; ++from) { if (!ctx.take()) continue; check_aux_degrees(ctx, *env(i), from); }
     ctx.sub("auxlat-misc");
     for (int i : eidx) { if (!ctx.take()) continue; check_aux_misc(ctx, *env(i), al); }
+    ctx.sub("auxlat-derivative");
+    {
+      // quick: the quick ellipsoids + sphere, b/a = 2, 0.01, 0.1, 10; thorough: all
+      std::vector<int> didx = eidx; if (!T) for (int i : {2, 5, 6, 14, 15}) didx.push_back(i);
+      ctx.bound("aux.derivative", std::string("ToAuxiliary(aux, phi, &diff) and Parametric/Geocentric/Rectifying/Conformal/Authalic(phi, &diff) for all 6 aux x ") + fmti((long long)didx.size()) + " ellipsoids (quick: b/a = 1-1/298.257, 1+1/150, 1, 1/2, 2, 0.1, 10, 0.01, 100) x tan(phi) = +-{0, 1e-310, 1e-10, 0.1, 1, 10, 1e10, 1e155, max double, inf" +
+                (T ? ", 4.9e-324, 2.2e-308, 1e-300, 1e-160, 1e-3, tan 30, tan 89.999, 1e12, 1e20, 1e100, 1e160, 1e300" : "") + "} against the closed-form d tan(aux)/d tan(phi) in __float128; DAuxLatitude::DParametric/DRectifying/DIsometric/DConvert with coinciding arguments = the angle derivatives");
+      for (int i : didx) { if (!ctx.take()) continue; check_aux_derivative(ctx, *env(i), T); check_daux_coincident(ctx, *env(i), T); }
+    }
     ctx.sub("auxangle");
     ctx.bound("auxangle.pairs", "AuxAngle(y,x).normalized()/radians()/degrees() on 20 (|y|,|x|) pairs x 4 quadrants: both components tiny (1e-170, 1e-200, denormals), both huge (1e200, 8e307), ratio > 1e154 either way, tangents 1e155 ... max double");
     if (ctx.take()) check_auxangle(ctx);
